@@ -370,3 +370,125 @@ Proof.
     + rewrite E. simpl. rewrite app_nil_r. reflexivity.
     + exfalso. apply (q_no_direct cap stop s a Q); auto. apply M. left; auto.
 Qed.
+
+(* ---- the call itself comes back: the caller's range loop ends ----
+   [ended] is about the goroutines executeEach starts (members and the closer).  The caller's
+   `for response := range responses` loop ends as well — by an early return or because the channel
+   was closed and drained — on every schedule, for every member count including none (for an empty
+   group the only steps are: the closer closes the channel, the range ends). *)
+Definition returned (s : pstate) : Prop := ended s /\ p_listening s = false.
+
+Lemma progress_ret : forall cap stop n s,
+  (n <= cap \/ forall l, stop l = false) ->
+  inv stop n s -> members_returned s -> ~ returned s -> exists s', pstep cap stop s s'.
+Proof.
+  intros cap stop n s Hyp I M NR.
+  destruct (forallb is_mdone (p_ms s)) eqn:AD; [destruct (p_closed s) eqn:CL|].
+  - destruct (p_listening s) eqn:Li.
+    + destruct (p_buf s) as [|j rest] eqn:Bu.
+      * eexists. apply PEnd; auto.
+      * eexists. apply (PRecv cap stop s j rest Bu Li).
+    + exfalso. apply NR. split; [split|]; auto.
+  - apply (progress cap stop n s Hyp I M). intros [_ E]. congruence.
+  - apply (progress cap stop n s Hyp I M). intros [E _]. congruence.
+Qed.
+
+Theorem call_returns : forall cap stop n s,
+  (n <= cap \/ forall l, stop l = false) ->
+  reachable cap stop n s -> members_returned s -> inevitably cap stop returned s.
+Proof.
+  intros cap stop n s Hyp R M. pose proof (reachable_inv _ _ _ _ R) as I. clear R.
+  remember (S (measure s)) as b eqn:Eb.
+  assert (Hb : measure s < b) by lia. clear Eb. revert s M I Hb.
+  induction b as [|b IH]; intros s M I Hb; [lia|].
+  assert (D : returned s \/ ~ returned s).
+  { unfold returned, ended.
+    destruct (forallb is_mdone (p_ms s)); [|right; intros [[E _] _]; discriminate].
+    destruct (p_closed s); [|right; intros [[_ E] _]; discriminate].
+    destruct (p_listening s); [right; intros [_ E]; discriminate|left; auto]. }
+  destruct D as [D|D]; [apply inev_now; auto|].
+  apply inev_later.
+  - apply (progress_ret cap stop n s Hyp I M D).
+  - intros s' St. destruct (step_decreases _ _ _ _ M St) as [M' Dm].
+    apply IH; auto; [eapply inv_step; eauto|lia].
+Qed.
+
+(* the empty group: whatever the capacity and the caller's rule, the call comes back and nothing
+   is left (the closer goroutine is what closes the channel nobody sends on) *)
+Corollary empty_group_returns : forall cap stop, inevitably cap stop returned (proc_init 0).
+Proof.
+  intros cap stop. apply (call_returns cap stop 0); [left; lia|apply reach_init|reflexivity].
+Qed.
+
+(* without the closer goroutine (the channel closed by "whichever member reports last") an empty
+   group never returns: no step at all is possible from the initial state when PClose is left out.
+   Stated on this model: every step out of [proc_init 0] is the closer's. *)
+Lemma empty_group_only_closer_moves : forall cap stop s',
+  pstep cap stop (proc_init 0) s' -> s' = mkP [] [] [] true true.
+Proof.
+  intros cap stop s' St. inversion St; subst; simpl in *; try discriminate; auto.
+  - destruct i; discriminate.
+  - destruct i; discriminate.
+  - destruct i; discriminate.
+Qed.
+
+(* ---- a caller that never leaves early (ExecuteUpTo) has received every member's response,
+        exactly once, when its loop ends ---- *)
+Record inv3 (stop : list nat -> bool) (s : pstate) : Prop := mkInv3 {
+  inv3_done : forall i, nth_error (p_ms s) i = Some MDone -> In i (delivered s);
+  inv3_buf : (forall l, stop l = false) -> p_listening s = false -> p_buf s = []
+}.
+
+Lemma inv3_init : forall stop n, inv3 stop (proc_init n).
+Proof.
+  intros stop n. split; simpl; [|discriminate].
+  intros i E. apply nth_error_In in E. apply repeat_spec in E. discriminate.
+Qed.
+
+Lemma inv3_step : forall cap stop n s s', inv stop n s -> inv3 stop s -> pstep cap stop s s' -> inv3 stop s'.
+Proof.
+  intros cap stop n s s' [L B C N] [DN BU] St. unfold delivered in *.
+  inversion St; subst; split; unfold delivered; simpl; auto.
+  - intros k. rewrite nth_error_set_nth. destruct (Nat.eqb_spec k i) as [->|NE]; [|apply DN].
+    rewrite H. discriminate.
+  - intros k. rewrite nth_error_set_nth. destruct (Nat.eqb_spec k i) as [->|NE].
+    + intros _. apply in_or_app. right. apply in_or_app. right. left. auto.
+    + intros E. specialize (DN k E). apply in_app_or in DN as [I|I]; apply in_or_app; auto.
+      right. apply in_or_app. auto.
+  - intros NS Li. specialize (C (N NS Li)). pose proof (all_done_nth _ _ _ C H). discriminate.
+  - intros k. rewrite nth_error_set_nth. rewrite app_nil_r. destruct (Nat.eqb_spec k i) as [->|NE].
+    + intros _. apply in_or_app. right. left. auto.
+    + intros E. specialize (DN k E). rewrite H0, app_nil_r in DN. apply in_or_app. auto.
+  - intros k E. specialize (DN k E). rewrite H in DN. rewrite <- app_assoc. simpl. auto.
+  - intros NS Li. rewrite NS in Li. discriminate.
+Qed.
+
+Theorem never_stopping_caller_receives_all : forall cap stop n s,
+  (forall l, stop l = false) -> reachable cap stop n s -> p_listening s = false ->
+  Permutation.Permutation (p_recvd s) (seq 0 n).
+Proof.
+  intros cap stop n s NS R.
+  assert (I13 : inv stop n s /\ inv3 stop s).
+  { induction R; [split; [apply inv_init|apply inv3_init]|].
+    destruct IHR as [I1 I3]. split; [eapply inv_step; eauto|eapply inv3_step; eauto]. }
+  intros Li. destruct I13 as [[L B C N] [DN BU]].
+  destruct (received_once _ _ _ _ R) as [ND RI].
+  apply Permutation.NoDup_Permutation; auto; [apply seq_NoDup|].
+  intros i. rewrite in_seq. split; [intros Hi; destruct (RI i Hi); lia|].
+  intros [_ Hi]. simpl in Hi.
+  specialize (C (N NS Li)).
+  assert (E : nth_error (p_ms s) i = Some MDone).
+  { destruct (nth_error (p_ms s) i) as [m|] eqn:E.
+    - f_equal. eapply all_done_nth; eauto.
+    - apply nth_error_None in E. lia. }
+  specialize (DN i E). unfold delivered in DN. rewrite (BU NS Li), app_nil_r in DN. auto.
+Qed.
+
+(* the channel is closed only after every member goroutine has completed its send (Done is reported
+   after the send, the closer waits for every Done): nobody ever sends on a closed channel *)
+Theorem never_sends_on_closed_channel : forall cap stop n s i,
+  reachable cap stop n s -> p_closed s = true -> nth_error (p_ms s) i <> Some MSend /\ nth_error (p_ms s) i <> Some MRun.
+Proof.
+  intros cap stop n s i R C. pose proof (inv_closed _ _ _ (reachable_inv _ _ _ _ R) C) as A.
+  split; intros E; pose proof (all_done_nth _ _ _ A E); discriminate.
+Qed.
